@@ -111,12 +111,22 @@ SetBuffer(v) ==
   /\ last' = NoOutcome
   /\ UNCHANGED <<handed, eof, phase, call>>
 
+\* asyncio path only: the protocol is handed a chunk after the awaited call's future is already
+\* done (the transport is paused a moment later): the text joins the pending text unsearched and is
+\* searched first thing by the next call - exactly what a blocking object sees when output arrives
+\* while no call is outstanding.
+LateData(chunk) ==
+  /\ phase = "idle" /\ ~eof
+  /\ recv' = recv \o chunk /\ pend' = pend \o chunk
+  /\ UNCHANGED <<handed, eof, phase, call, last>>
+
 Chunks == SeqsUpTo(Alphabet, MaxChunk)
 
 ANextWith(PatLists, Ws) ==
   \/ \E ps \in PatLists, W \in Ws, t \in TmoClasses, x \in BOOLEAN : Call(ps, W, t, x)
   \/ \E ch \in Chunks : ReadData(ch)
   \/ ReadEOF \/ Timeout \/ ReadError
+  \/ \E ch \in Chunks : LateData(ch)
   \/ \E v \in Chunks : SetBuffer(v)
 
 (* ---- the listed properties as state invariants ------------------------- *)
